@@ -1,9 +1,11 @@
 (* C10: model of the presence machinery of tinode/chat: server/pres.go (procPresReq,
-   presUsersOfInterest, presSubsOnline/Offline, presSingleUserOffline(Offline),
-   presOfflineFilter), topic.go (passesPresenceFilters, handlePresence,
-   broadcastToSessions' pres branch, subscriptionReply online accounting,
-   sendImmediateSubNotifications, sendSubNotifications, handleLeaveRequest,
-   sessToForeground, handleTopicTimeout, notifySubChange, evictUser), hub.go routeSrv,
+   presUsersOfInterest, presSubsOnline/Offline, presSingleUserOffline(Offline), infoSubsOffline,
+   presPubMessageCount, presPubMessageDelete, presOfflineFilter), topic.go (passesPresenceFilters,
+   handleServerMsg, handlePresence, broadcastToSessions' pres and info branches, subscriptionReply
+   online accounting, sendImmediateSubNotifications, sendSubNotifications, handleLeaveRequest,
+   replyLeaveUnsub for groups and p2p, sessToForeground, handleTopicTimeout, notifySubChange,
+   evictUser, saveAndBroadcastMessage, handleNoteBroadcast for kp/read/recv, replyDelMsg),
+   session.go note, hub.go routeSrv and the deletion of a p2p topic both parties left,
    init_topic.go loadContacts.
 
    Several users, their 'me' topics, p2p topics and group topics run side by side.
@@ -69,18 +71,26 @@ Definition grp_defacs : N := 47.     (* JRWPS: defacs.auth of the groups the dri
 
 (* ---------------------------------------------------------------- state *)
 
-Inductive what := WOn | WOff | WUnkn | WNone | WGone | WMsg | WAcs | WUpd | WOther.
+Inductive what := WOn | WOff | WUnkn | WNone | WGone | WMsg | WAcs | WUpd | WOther
+                | WDel | WRead | WRecv        (* {pres} del / read / recv (replyDelMsg, presPubMessageCount) *)
+                | WIRead | WIRecv | WIKp.     (* {info} read / recv / kp (handleNoteBroadcast, infoSubsOffline) *)
 Inductive cmd := CNo | CEn | CDis | CRem.
 
 Definition what_eqb (a b : what) : bool :=
   match a, b with
   | WOn, WOn | WOff, WOff | WUnkn, WUnkn | WNone, WNone | WGone, WGone | WMsg, WMsg
-  | WAcs, WAcs | WUpd, WUpd | WOther, WOther => true
+  | WAcs, WAcs | WUpd, WUpd | WOther, WOther | WDel, WDel | WRead, WRead | WRecv, WRecv
+  | WIRead, WIRead | WIRecv, WIRecv | WIKp, WIKp => true
   | _, _ => false
   end.
 
+(* the notification is an {info}, not a {pres} *)
+Definition is_info (w : what) : bool := match w with WIRead | WIRecv | WIKp => true | _ => false end.
+
 Record psd := mkPsd { ps_on : bool; ps_en : bool }.          (* perSubsData *)
-Record pud := mkPud { p_want : N; p_given : N; p_online : Z; p_deleted : bool }.
+Record pud := mkPud { p_want : N; p_given : N; p_online : Z; p_deleted : bool;
+                      p_read : Z; p_recv : Z;       (* perUserData.readID / recvID (cache) *)
+                      p_dread : Z; p_drecv : Z }.   (* ReadSeqId / RecvSeqId of the stored subscription row *)
 Definition p_mode (p : pud) : N := N.land (p_given p) (p_want p).
 
 (* a loaded 'me' topic *)
@@ -98,7 +108,8 @@ Record topic := mkTop {
   t_sess : list (N * N);            (* session id -> subscribed user *)
   t_users : list (N * pud);
   t_owner : N;
-  t_supd : bool }.                  (* the instance has a session-update channel: initTopicGrp creates one,
+  t_supd : bool;
+  t_lastid : Z }.                   (* Topic.lastID (= topics.seqid: saved with every message) *)                  (* the instance has a session-update channel: initTopicGrp creates one,
                                        initTopicNewGrp and initTopicP2P do not *)
 
 Record presflt := mkFlt { f_in : N; f_out : N; f_single : option N; f_excl : option N }.
@@ -114,7 +125,8 @@ Record msg := mkMsg {
   m_reply : bool;                   (* WantReply *)
   m_flt : presflt;                  (* FilterIn/FilterOut/SingleUser/ExcludeUser *)
   m_skipsid : option N;
-  m_skiptopic : option tname }.
+  m_skiptopic : option tname;
+  m_from : option N }.              (* Info.From *)
 
 Record sessinfo := mkSess { ss_user : N; ss_bkg : bool }.
 
@@ -145,7 +157,7 @@ Definition get_sess (s : state) (sid : N) : option sessinfo := aget N.eqb sid (s
 Definition put_me (u : N) (m : metop) := set_me (aset N.eqb u m).
 Definition put_top (t : tname) (x : topic) := set_top (aset tname_eqb t x).
 
-Definition blank_pud := mkPud 0 0 0 false.
+Definition blank_pud := mkPud 0 0 0 false 0 0 0 0.
 (* Go map read: a missing key yields the zero value *)
 Definition get_pud (x : topic) (u : N) : pud :=
   match aget N.eqb u (t_users x) with Some p => p | None => blank_pud end.
@@ -153,13 +165,21 @@ Definition get_pud (x : topic) (u : N) : pud :=
 Definition cached (x : topic) (u : N) : bool :=
   match aget N.eqb u (t_users x) with Some p => negb (p_deleted p) | None => false end.
 Definition set_pud (u : N) (p : pud) (x : topic) : topic :=
-  mkTop (t_loaded x) (t_marked x) (t_sess x) (aset N.eqb u p (t_users x)) (t_owner x) (t_supd x).
+  mkTop (t_loaded x) (t_marked x) (t_sess x) (aset N.eqb u p (t_users x)) (t_owner x) (t_supd x) (t_lastid x).
 Definition set_tsess (l : list (N * N)) (x : topic) : topic :=
-  mkTop (t_loaded x) (t_marked x) l (t_users x) (t_owner x) (t_supd x).
+  mkTop (t_loaded x) (t_marked x) l (t_users x) (t_owner x) (t_supd x) (t_lastid x).
 Definition set_tmarked (b : bool) (x : topic) : topic :=
-  mkTop (t_loaded x) b (t_sess x) (t_users x) (t_owner x) (t_supd x).
-Definition p_set_online (z : Z) (p : pud) := mkPud (p_want p) (p_given p) z (p_deleted p).
-Definition p_set_modes (w g : N) (p : pud) := mkPud w g (p_online p) (p_deleted p).
+  mkTop (t_loaded x) b (t_sess x) (t_users x) (t_owner x) (t_supd x) (t_lastid x).
+Definition set_lastid (z : Z) (x : topic) : topic :=
+  mkTop (t_loaded x) (t_marked x) (t_sess x) (t_users x) (t_owner x) (t_supd x) z.
+Definition p_set_online (z : Z) (p : pud) :=
+  mkPud (p_want p) (p_given p) z (p_deleted p) (p_read p) (p_recv p) (p_dread p) (p_drecv p).
+Definition p_set_modes (w g : N) (p : pud) :=
+  mkPud w g (p_online p) (p_deleted p) (p_read p) (p_recv p) (p_dread p) (p_drecv p).
+Definition p_set_marks (rd rc drd drc : Z) (p : pud) :=
+  mkPud (p_want p) (p_given p) (p_online p) (p_deleted p) rd rc drd drc.
+Definition p_set_deleted (z : Z) (d : bool) (p : pud) :=
+  mkPud (p_want p) (p_given p) z d (p_read p) (p_recv p) (p_dread p) (p_drecv p).
 
 (* the session is attached to topic t (Session.getSub) *)
 Definition sess_on (s : state) (sid : N) (t : tname) : bool :=
@@ -252,12 +272,12 @@ Definition proc_pres_req (isme : bool) (self : tname) (subs : list (tname * psd)
 Definition mk_reply (self from : tname) (r : what * cmd * bool) : msg :=
   let '(w, c, rr) := r in
   (* Topic "me": matches the xoriginal of a 'me' destination, never that of a group *)
-  mkMsg false self from (match from with TMe _ => true | _ => false end) self w c rr nil_flt None None.
+  mkMsg false self from (match from with TMe _ => true | _ => false end) self w c rr nil_flt None None None.
 
 (* presUsersOfInterest (pres.go:254-282) for what in {on, off}: notifyOn = "me" *)
 Definition pres_users_of_interest (zombie : bool) (u : N) (subs : list (tname * psd)) (w : what) : list msg :=
   map (fun e => mkMsg zombie (TMe u) (fst e) (match fst e with TMe _ => true | _ => false end) (TMe u) w CNo
-                      (what_eqb w WOn) nil_flt None None) subs.
+                      (what_eqb w WOn) nil_flt None None None) subs.
 
 (* Topic.original(uid): the name under which user uid knows topic t *)
 Definition original (t : tname) (uid : N) : tname :=
@@ -272,12 +292,12 @@ Definition pres_subs_offline (zombie : bool) (t : tname) (x : topic) (w : what) 
   flat_map (fun e =>
     let '(uid, p) := e in
     if p_deleted p || negb (pres_offline_filter (p_mode p) w (Some fsrc)) then []
-    else [mkMsg zombie t (TMe uid) true (original t uid) w c false ftgt skipsid (if offline_only then Some t else None)])
+    else [mkMsg zombie t (TMe uid) true (original t uid) w c false ftgt skipsid (if offline_only then Some t else None) None])
     (t_users x).
 
 (* presSubsOnline (pres.go:316-346): routed through the hub back to the topic itself *)
 Definition pres_subs_online (t : tname) (w : what) (src : tname) (f : presflt) (skipsid : option N) : msg :=
-  mkMsg false t t true src w CNo false f skipsid None.
+  mkMsg false t t true src w CNo false f skipsid None None.
 
 (* presSingleUserOffline (pres.go:587-628); mode = None stands for ModeInvalid *)
 Definition pres_single_offline (t : tname) (uid : N) (mode : option N) (w : what) (c : cmd)
@@ -286,7 +306,7 @@ Definition pres_single_offline (t : tname) (uid : N) (mode : option N) (w : what
   | Some m =>
     if pres_offline_filter m w None
     then [mkMsg false t (TMe uid) true (original t uid) w c (what_eqb w WUnkn) nil_flt skipsid
-                (if offline_only then Some t else None)]
+                (if offline_only then Some t else None) None]
     else []
   | None => []
   end.
@@ -294,14 +314,25 @@ Definition pres_single_offline (t : tname) (uid : N) (mode : option N) (w : what
 (* presSingleUserOfflineOffline (pres.go:632-658): no filter at all *)
 Definition pres_single_offline_offline (t : tname) (uid : N) (orig : tname) (w : what) (c : cmd)
            (skipsid : option N) : msg :=
-  mkMsg false t (TMe uid) true orig w c false nil_flt skipsid None.
+  mkMsg false t (TMe uid) true orig w c false nil_flt skipsid None None.
+
+(* infoSubsOffline (pres.go:479-501): {info what=read|recv|kp} to the 'me' topic of every non-deleted subscriber
+   whose mode has P and R (the author included); SkipTopic = the topic, SkipSid = the author's session *)
+Definition info_subs_offline (t : tname) (x : topic) (from : N) (w : what) (skipsid : option N) : list msg :=
+  flat_map (fun e =>
+    let '(uid, p) := e in
+    if p_deleted p || negb (is_presencer (p_mode p)) || negb (is_reader (p_mode p)) then []
+    else [mkMsg false t (TMe uid) true (original t uid) w CNo false nil_flt skipsid (Some t) (Some from)])
+    (t_users x).
 
 (* ---------------------------------------------------------------- outputs *)
 
 Inductive out :=
 | Frame (sid user : N) (top src : tname) (w : what)     (* {pres} delivered to a session by topic `top` *)
 | Ctrl (sid : N) (code : Z)
-| Skipped.
+| Skipped
+| Unmodelled.   (* the request takes a code path this model does not follow (listed in the manifest); the
+                   comparison of the history stops here, the monitors on the implementation's trace do not *)
 
 (* broadcastToSessions' pres branch (topic.go:1257-1283) on a 'me' topic *)
 Definition bcast_me (s : state) (u : N) (m : metop) (g : msg) (w : what) : list out :=
@@ -323,13 +354,43 @@ Definition bcast_top (s : state) (t : tname) (x : topic) (g : msg) (w : what) : 
     else if negb (passes_presence_filters (p_mode (get_pud x uid)) w (m_flt g)) then []
     else [Frame sid uid t (m_src g) w]) (t_sess x).
 
-(* handlePresence (topic.go:1237-1249) at the destination; hub.go:247-263 drops when not loaded *)
+(* broadcastToSessions' info branch (topic.go:1287-1304) for an {info} that arrived from another topic
+   (Info.Src != ""): no permission check here - "permissions already checked there" *)
+Definition bcast_me_info (s : state) (u : N) (m : metop) (g : msg) : list out :=
+  flat_map (fun sid =>
+    if (match m_skipsid g with Some k => sid =? k | None => false end) then []
+    else if (match m_skiptopic g with Some t => sess_on s sid t | None => false end) then []
+    else if what_eqb (m_what g) WIKp && (match m_from g with Some f => f =? u | None => false end) then []
+    else [Frame sid u (TMe u) (m_src g) (m_what g)]) (me_sess m).
+
+Definition bcast_top_info_routed (s : state) (t : tname) (x : topic) (g : msg) : list out :=
+  flat_map (fun e =>
+    let '(sid, uid) := e in
+    if (match m_skipsid g with Some k => sid =? k | None => false end) then []
+    else if (match m_skiptopic g with Some t' => sess_on s sid t' | None => false end) then []
+    else if what_eqb (m_what g) WIKp && (match m_from g with Some f => f =? uid | None => false end) then []
+    else [Frame sid uid t (m_src g) (m_what g)]) (t_sess x).
+
+(* the same branch for the {info} the topic makes from a {note} of its own session (Info.Src = "",
+   handleNoteBroadcast topic.go:1220-1233): attached sessions of readers, not the author's session, and no
+   key presses to the author's other sessions.  The frame's source is printed as the topic itself. *)
+Definition bcast_top_info (t : tname) (x : topic) (from sid0 : N) (w : what) : list out :=
+  flat_map (fun e =>
+    let '(sid, uid) := e in
+    if sid =? sid0 then []
+    else if negb (is_reader (p_mode (get_pud x uid))) then []
+    else if what_eqb w WIKp && (uid =? from) then []
+    else [Frame sid uid t (original t uid) w]) (t_sess x).
+
+(* handleServerMsg (topic.go:606-621) at the destination: handlePresence for {pres}, broadcastToSessions
+   for {info}; hub.go:247-263 drops when not loaded *)
 Definition deliver_msg (s : state) (g : msg) : state * list out :=
   match m_dst g with
   | TMe u =>
     match get_me s u with
     | None => (s, [])
     | Some m =>
+      if is_info (m_what g) then (s, bcast_me_info s u m g) else
       let r := proc_pres_req true (TMe u) (me_subs m) (m_src g) (m_what g) (m_cmd g) (m_reply g) in
       let m' := mkMe (me_marked m) (me_online m) (me_sess m) (r_subs r) in
       let s1 := put_me u m' s in
@@ -343,6 +404,7 @@ Definition deliver_msg (s : state) (g : msg) : state * list out :=
     | None => (s, [])
     | Some x =>
       if negb (t_loaded x) then (s, []) else
+      if is_info (m_what g) then (s, bcast_top_info_routed s t x g) else
       let r := proc_pres_req false t [] (m_src g) (m_what g) (m_cmd g) (m_reply g) in
       let s2 := match r_reply r with Some rp => send [mk_reply t (m_src g) rp] s | None => s end in
       (s2, match r_what r with
@@ -413,6 +475,12 @@ Definition notify_sub_change_gen (rep : bool) (t : tname) (uid : N) (old_mode : 
     match t with
     | TGrp _ => [pres_subs_online t WOff (TMe uid) (mkFlt ModeCSharer 0 None (Some uid)) skip;
                  pres_single_offline_offline t uid t WGone CNo skip]
+    | TP2P a b =>
+      (* topic.go:3427-3433: "gone" to the user's own 'me' (mode ModeUnset&ModeUnset: no bits, not ModeInvalid),
+         then an UNFILTERED "off" about the user to the other user's 'me' *)
+      let uid2 := if uid =? a then b else a in
+      pres_single_offline t uid (Some 0) WGone CNo skip false ++
+      [pres_single_offline_offline t uid2 (TMe uid) WOff CNo None]
     | _ => []
     end
   | Some nm =>
@@ -428,14 +496,26 @@ Definition notify_sub_change_unrepaired := notify_sub_change_gen false.
 (* evictUser (topic.go:3309-3357): sessions of the user leave the topic *)
 Definition evict_user (x : topic) (uid : N) (unsub : bool) : topic * list out :=
   let p := get_pud x uid in
-  let x1 := if cached x uid then set_pud uid (mkPud (p_want p) (p_given p) 0 unsub) x else x in
+  let x1 := if cached x uid then set_pud uid (p_set_deleted 0 unsub p) x else x in
   (set_tsess (filter (fun e => negb (snd e =? uid)) (t_sess x1)) x1, []).
 
 Definition unload_top (x : topic) : topic :=
-  mkTop false false [] (map (fun e => (fst e, p_set_online 0 (snd e))) (t_users x)) (t_owner x) false.
+  mkTop false false [] (map (fun e => (fst e, p_set_online 0 (snd e))) (t_users x)) (t_owner x) false (t_lastid x).
 
-(* hub join of a not yet loaded topic: loadSubscribers *)
-Definition load_top (x : topic) : topic := mkTop true false [] (t_users x) (t_owner x) true.
+(* hub join of a not yet loaded topic: loadSubscribers / initTopicP2P case 4: the marks come from the rows *)
+Definition load_top (x : topic) : topic :=
+  mkTop true false [] (map (fun e => (fst e, p_set_marks (p_dread (snd e)) (p_drecv (snd e)) (p_dread (snd e)) (p_drecv (snd e)) (snd e)))
+                           (t_users x)) (t_owner x) true (t_lastid x).
+
+(* subsCount (topic.go:3662-3673) of a p2p topic *)
+Definition subs_count (x : topic) : nat := length (filter (fun e => negb (p_deleted (snd e))) (t_users x)).
+Definition has_deleted (x : topic) : bool := existsb (fun e => p_deleted (snd e)) (t_users x).
+(* `t.perUser[uid]` has the key: p2p entries stay (marked deleted), group entries are dropped on unsubscribe *)
+Definition found (t : tname) (x : topic) (u : N) : bool :=
+  match aget N.eqb u (t_users x) with
+  | Some p => match t with TP2P _ _ => true | _ => negb (p_deleted p) end
+  | None => false
+  end.
 
 (* ---------------------------------------------------------------- operations *)
 
@@ -443,13 +523,15 @@ Inductive op :=
 | New (sid u g : N) (bkg : bool)          (* {sub topic:"new.."}: create group g owned by u *)
 | Att (sid u : N) (r : tref) (bkg : bool) (* {sub}; the session's background flag is taken when it has no other subscription *)
 | Det (sid : N) (r : tref)                (* {leave} *)
-| Unsub (sid : N) (r : tref)              (* {leave unsub:true}, groups *)
+| Unsub (sid : N) (r : tref)              (* {leave unsub:true}, groups and p2p *)
 | Disc (sid : N)                          (* connection closed: Session.cleanUp *)
 | Fg (sid : N)                            (* background timer: Session.onBackgroundTimer *)
 | Want (sid : N) (r : tref) (mask : N)    (* {set sub mode} on the own subscription *)
 | Given (sid : N) (r : tref) (v mask : N) (* {set sub user mode}: invite / change given / ban *)
 | Evict (sid : N) (r : tref) (v : N)      (* {del sub} *)
 | Pub (sid : N) (r : tref)                (* {pub}: "msg" notifications *)
+| Note (sid u : N) (r : tref) (w : what) (seq : Z)  (* {note what=kp|read|recv} of a session of user u: w = WIKp | WIRead | WIRecv *)
+| DelMsg (sid : N) (r : tref) (hard : bool)       (* {del what=msg delseq=[{low:1}]} *)
 | Unload (t : tname)                      (* idle timer of a topic without sessions: handleTopicTimeout *)
 | UnloadHub (t : tname)                   (* handleTopicTimeout line 495 only: the hub forgets the topic ... *)
 | UnloadOff (t : tname)                   (* ... and the old goroutine fans out "off" later (lines 497-502) *)
@@ -495,14 +577,32 @@ Definition att_p2p (s : state) (sid u v : N) (bkg : bool) : state * list out :=
   | None =>
     (* initTopicP2P creates the topic and both subscriptions (users with default access JRWPAS) *)
     let x := mkTop true false [(sid, u)]
-                   [(u, mkPud ModeCP2P ModeCAuth (b2z (negb bkg)) false); (v, mkPud ModeCP2P ModeCP2P 0 false)] 0 false in
+                   [(u, mkPud ModeCP2P ModeCAuth (b2z (negb bkg)) false 0 0 0 0); (v, mkPud ModeCP2P ModeCP2P 0 false 0 0 0 0)]
+                   0 false 0 in
     (send (p2p_newsub_notifs t x u v) (put_top t x s), [Ctrl sid 200])
   | Some x0 =>
+    (* initTopicP2P cases 2.1/2.2 (the topic is not loaded and one subscription row is deleted: the hub
+       re-creates it) are not modelled *)
+    if negb (t_loaded x0) && has_deleted x0 then (s, [Unmodelled]) else
     let x := if t_loaded x0 then x0 else load_top x0 in
     if existsb (fun e => N.eqb sid (fst e)) (t_sess x) then (s, [Skipped]) else
-    (* re-subscription after a p2p unsubscribe is not modelled (the model never deletes a p2p subscription) *)
-    if negb (cached x u) then (s, [Skipped]) else
+    if negb (cached x u) then
+      (* the user deleted the subscription earlier and the topic is still loaded: thisUserSub's
+         "new subscription" branch for p2p (topic.go:1489-1499,1577-1609), no mode in the request *)
+      let p := get_pud x u in
+      let want := N.lor (N.land (p_want p) ModeCP2P) mA in
+      if negb (is_joiner (p_given p)) then (put_top t x s, [Ctrl sid 403]) else
+      if negb (is_joiner want) then (s, [Unmodelled]) else
+      let np := mkPud want (p_given p) (b2z (negb bkg)) false 0 0 0 0 in
+      let x1 := set_pud u np (set_tsess (t_sess x ++ [(sid, u)]) x) in
+      (* notifySubChange(old = none): "?unkn+en" when the new mode has P; then sendImmediateSubNotifications
+         with Newsub (subscriptionReply topic.go:1357-1361) *)
+      let ms1 := notify_sub_change t u 0 (Some (N.land (p_given p) want)) (Some sid) in
+      (send (ms1 ++ p2p_newsub_notifs t x1 u v) (put_top t x1 s), [Ctrl sid 200])
+    else
     let p := get_pud x u in
+    (* banned by the partner ({set sub user mode} without J): thisUserSub topic.go:1827-1831 *)
+    if negb (is_joiner (p_given p)) then (put_top t x s, [Ctrl sid 403]) else
     let x1 := set_pud u (p_set_online (p_online p + b2z (negb bkg)) p) (set_tsess (t_sess x ++ [(sid, u)]) x) in
     (put_top t x1 s, [Ctrl sid 200])
   end.
@@ -527,7 +627,7 @@ Definition att_grp (s : state) (sid u g : N) (bkg : bool) : state * list out :=
       let given := match aget N.eqb u (t_users x) with Some q => p_given q | None => grp_defacs end in
       if negb (is_joiner given) then (put_top t x s, [Ctrl sid 403]) else
       let want := grp_defacs in
-      let np := mkPud want given (b2z (negb bkg)) false in
+      let np := mkPud want given (b2z (negb bkg)) false 0 0 0 0 in
       let x1 := set_pud u np (set_tsess (t_sess x ++ [(sid, u)]) x) in
       let ms1 := notify_sub_change t u 0 (Some (N.land given want)) (Some sid) in
       let '(x2, ms2) := if bkg then (x1, []) else sub_notif_grp t x1 u sid in
@@ -632,12 +732,15 @@ Definition given_op_gen (rep : bool) (s : state) (sid u : N) (t : tname) (v mask
           let ms := notify_sub_change_gen rep t v (p_mode p) (Some (N.land mask' (p_want p))) (Some sid) in
           let x2 := if is_joiner mask' then x1 else fst (evict_user x1 v false) in
           (send ms (put_top t x2 s), [Ctrl sid 200])
-      else if negb (is_grp t) then (s, [Skipped])
+      else if negb (is_grp t) then
+        (* re-invitation of the p2p partner who deleted the subscription: the code re-creates the perUser entry
+           WITHOUT its topicName (findings/C10.md #5), after which Topic.original(uid) is "" - not modelled *)
+        (s, [Unmodelled])
       else
         (* invitation: want = the previous want of a deleted row, else the user's default & given *)
         let want := match aget N.eqb v (t_users x) with Some q => p_want q | None => N.land ModeCAuth mask' end in
         if negb (is_joiner want) then (s, [Ctrl sid 403]) else
-        let x1 := set_pud v (mkPud want mask' 0 false) x in
+        let x1 := set_pud v (mkPud want mask' 0 false 0 0 0 0) x in
         let ms := notify_sub_change_gen rep t v 0 (Some (N.land mask' want)) (Some sid) in
         let x2 := if is_joiner mask' then x1 else fst (evict_user x1 v false) in
         (send ms (put_top t x2 s), [Ctrl sid 200])
@@ -659,27 +762,113 @@ Definition evict_op (s : state) (sid u : N) (t : tname) (v : N) : state * list o
       (send ms (put_top t x1 s), [Ctrl sid 200])
   end.
 
-(* replyLeaveUnsub (topic.go:3226-3306), groups *)
+(* replyLeaveUnsub (topic.go:3226-3306), groups and p2p *)
 Definition unsub_op (s : state) (sid u : N) (t : tname) : state * list out :=
   match get_top s t with
   | None => (s, [Skipped])
   | Some x =>
-    if negb (sess_on s sid t) || negb (is_grp t) then (s, [Skipped]) else
-    if t_owner x =? u then (s, [Ctrl sid 403]) else
-    let p := get_pud x u in
-    let ms := notify_sub_change t u (p_mode p) None (Some sid) in
-    let x1 := fst (evict_user x u true) in
-    (send ms (put_top t x1 s), [Ctrl sid 200])
+    if negb (sess_on s sid t) then (s, [Skipped]) else
+    match t with
+    | TMe _ => (s, [Skipped])
+    | TGrp _ =>
+      if t_owner x =? u then (s, [Ctrl sid 403]) else
+      let p := get_pud x u in
+      let ms := notify_sub_change t u (p_mode p) None (Some sid) in
+      let x1 := fst (evict_user x u true) in
+      (send ms (put_top t x1 s), [Ctrl sid 200])
+    | TP2P _ _ =>
+      (* store.Subs.Delete of a row that is already deleted: ErrNotFound -> "no action", nothing else happens *)
+      if negb (cached x u) then (s, [Ctrl sid 304]) else
+      let p := get_pud x u in
+      let ms := notify_sub_change t u (p_mode p) None (Some sid) in
+      (* evictUser: the perUser entry STAYS, marked deleted, with its want/given; the user's sessions leave *)
+      let x1 := fst (evict_user x u true) in
+      match subs_count x1 with
+      | O => (* both sides gone (topic.go:3299-3303): paused, hub.unreg{del}: hub.topicUnreg case 1.1.1 deletes
+                the topic and its rows and stops the topic *)
+        (send ms (set_top (adel tname_eqb t) s), [Ctrl sid 200])
+      | _ => (send ms (put_top t x1 s), [Ctrl sid 200])
+      end
+    end
   end.
 
-(* saveAndBroadcastMessage's presence part (topic.go:1040-1042) *)
+(* saveAndBroadcastMessage (topic.go:965-1055): lastID, the author's marks (cache always; the row only
+   for a reader: messagesMapper.Save readBySender), the "msg" notifications *)
 Definition pub_op (s : state) (sid u : N) (t : tname) : state * list out :=
   match get_top s t with
   | None => (s, [Skipped])
   | Some x =>
     if negb (sess_on s sid t) then (s, [Skipped]) else
-    if negb (is_writer (p_mode (get_pud x u))) then (s, [Ctrl sid 403]) else
-    (send (pres_subs_offline false t x WMsg CNo (mkFlt mR 0 None None) nil_flt None true) s, [Ctrl sid 202])
+    let p := get_pud x u in
+    if negb (is_writer (p_mode p)) then (s, [Ctrl sid 403]) else
+    let l := (t_lastid x + 1)%Z in
+    let x1 := set_lastid l x in
+    let x2 := if found t x u
+              then set_pud u (if is_reader (p_mode p) then p_set_marks l l l l p
+                              else p_set_marks l l (p_dread p) (p_drecv p) p) x1
+              else x1 in
+    (send (pres_subs_offline false t x2 WMsg CNo (mkFlt mR 0 None None) nil_flt None true) (put_top t x2 s), [Ctrl sid 202])
+  end.
+
+(* Session.note (session.go:1239-1306) + handleNoteBroadcast (topic.go:1105-1234), kp / read / recv.  From an
+   attached session the note goes to the topic directly; a "recv" from a session that is NOT attached goes
+   through hub.routeCli (hub.go:222-246) to the topic if it is loaded (anybody may send one: the topic decides);
+   every other note of a detached session is refused (the driver does not send it: Skipped).
+   {note} is never answered.  `w` is the {info} kind. *)
+Definition note_op (s : state) (sid u : N) (t : tname) (w : what) (seq : Z) : state * list out :=
+  let attached := sess_on s sid t in
+  if negb attached && negb (what_eqb w WIRecv) then (s, [Skipped]) else
+  (* session.go:1259-1272 *)
+  if (match w with
+      | WIKp => negb (seq =? 0)%Z
+      | WIRead | WIRecv => (seq <=? 0)%Z
+      | _ => true end) then (s, []) else
+  match get_top s t with
+  | None => (s, [])
+  | Some x =>
+    if negb attached && negb (t_loaded x) then (s, []) else
+    if (t_lastid x <? seq)%Z then (s, []) else
+    let p := if found t x u then get_pud x u else blank_pud in
+    (* mode = ModeInvalid for a deleted user: no bit set *)
+    let mode := if p_deleted p then None else Some (p_mode p) in
+    let m := match mode with Some m => m | None => 0 end in
+    if (match w with WIKp => negb (is_writer m) | _ => negb (is_reader m) end) then (s, []) else
+    if (match w with WIRead => (seq <=? p_read p)%Z | WIRecv => (seq <=? p_recv p)%Z | _ => false end) then (s, []) else
+    let p' := match w with
+              | WIRead => p_set_marks seq (if (p_recv p <? seq)%Z then seq else p_recv p) seq (p_drecv p) p
+              | WIRecv => let rc := if (seq <? p_read p)%Z then p_read p else seq in
+                          p_set_marks (p_read p) rc (p_dread p) rc p
+              | _ => p end in
+    (* presPubMessageCount: {pres read|recv} to the user's own sessions on 'me' that are not attached here *)
+    let ms1 := match w with
+               | WIRead => pres_single_offline t u mode WRead CNo (Some sid) true
+               | WIRecv => pres_single_offline t u mode WRecv CNo (Some sid) true
+               | _ => [] end in
+    let x1 := match w with WIKp => x | _ => set_pud u p' x end in
+    (send (ms1 ++ info_subs_offline t x1 u w (Some sid)) (put_top t x1 s), bcast_top_info t x1 u sid w)
+  end.
+
+(* replyDelMsg (topic.go:2984-3091, as of /repo 2721db4) for the range {low:1}: hard needs D (silently soft
+   without it), soft needs R *)
+Definition delmsg_op (s : state) (sid u : N) (t : tname) (hard : bool) : state * list out :=
+  match get_top s t with
+  | None => (s, [Skipped])
+  | Some x =>
+    if negb (sess_on s sid t) then (s, [Skipped]) else
+    let p := if found t x u then get_pud x u else blank_pud in
+    let mode := p_mode p in
+    let hard := hard && has mode mD in
+    if negb hard && negb (is_reader mode) then (s, [Ctrl sid 403]) else
+    if (t_lastid x <? 1)%Z then (s, [Ctrl sid 400]) else
+    if hard then
+      (send (pres_subs_online t WDel (TMe u) (mkFlt mR 0 None None) (Some sid) ::
+             pres_subs_offline false t x WDel CNo (mkFlt mR 0 None None) nil_flt (Some sid) true) s, [Ctrl sid 200])
+    else
+      (* presPubMessageDelete: nothing unless the user is a (non-deleted) presencer *)
+      let ms := if p_deleted p || negb (is_presencer mode) then []
+                else pres_subs_online t WDel (TMe u) (mkFlt 0 0 (Some u) None) (Some sid) ::
+                     pres_single_offline t u (Some mode) WDel CNo (Some sid) true in
+      (send ms s, [Ctrl sid 200])
   end.
 
 (* the "off" fan-out of handleTopicTimeout (topic.go:497-502) *)
@@ -717,7 +906,7 @@ Definition step_gen (rep : bool) (s : state) (o : op) : state * list out :=
     match open_sess s sid u bkg, get_top s (TGrp g) with
     | Some (s1, b), None =>
       let t := TGrp g in
-      let x := mkTop true false [(sid, u)] [(u, mkPud ModeCFull ModeCFull (b2z (negb b)) false)] u false in
+      let x := mkTop true false [(sid, u)] [(u, mkPud ModeCFull ModeCFull (b2z (negb b)) false 0 0 0 0)] u false 0 in
       let '(x2, ms) := if b then (x, []) else sub_notif_grp t x u sid in
       (send ms (put_top t x2 s1), [Ctrl sid 200])
     | _, _ => (s, [Skipped])
@@ -784,6 +973,15 @@ Definition step_gen (rep : bool) (s : state) (o : op) : state * list out :=
     match sess_user s sid with
     | None => (s, [Skipped])
     | Some u => match r with RMe => (s, [Skipped]) | _ => pub_op s sid u (resolve u r) end
+    end
+  | Note sid u r w seq =>
+    (* a session that has not attached to anything yet is not in the table; it may still send a "recv" *)
+    if (match sess_user s sid with Some u' => negb (u' =? u) | None => false end) then (s, [Skipped]) else
+    match r with RMe => (s, [Skipped]) | _ => note_op s sid u (resolve u r) w seq end
+  | DelMsg sid r hard =>
+    match sess_user s sid with
+    | None => (s, [Skipped])
+    | Some u => match r with RMe => (s, [Skipped]) | _ => delmsg_op s sid u (resolve u r) hard end
     end
   | Unload t =>
     if idle s t then (send (timeout_offs false s t) (drop_topic s t), []) else (s, [Skipped])
